@@ -14,8 +14,10 @@ limitations under the License.
 package metadata
 
 import (
+	"errors"
 	"fmt"
 	"reflect"
+	"strings"
 
 	"github.com/mitchellh/mapstructure"
 	"github.com/spf13/cast"
@@ -51,6 +53,28 @@ func (q *ByteSize) GetBytes() (int64, error) {
 	return val, nil
 }
 
+// checkQuantityExponent rejects quantities in scientific notation whose exponent has more than 4 digits.
+// The time (and memory) resource.ParseQuantity needs grows faster than linearly with the magnitude of the
+// exponent: "1E-10000000" takes seconds and "1E-2147483647" or "1E2147483648" (which wraps around to a
+// negative int32) do not return in any reasonable time.
+func checkQuantityExponent(str string) error {
+	i := strings.LastIndexAny(str, "eE")
+	if i < 0 {
+		return nil
+	}
+	exp := strings.TrimLeft(str[i+1:], "+-")
+	for _, c := range exp {
+		if c < '0' || c > '9' {
+			// Not an exponent (e.g. the "Ei" suffix)
+			return nil
+		}
+	}
+	if len(strings.TrimLeft(exp, "0")) > 4 {
+		return errors.New("exponent is too large")
+	}
+	return nil
+}
+
 func toByteSizeHookFunc() mapstructure.DecodeHookFunc {
 	bytesizeType := reflect.TypeOf(ByteSize{})
 	bytesizePtrType := reflect.TypeOf(&ByteSize{})
@@ -78,6 +102,10 @@ func toByteSizeHookFunc() mapstructure.DecodeHookFunc {
 		}
 
 		// Parse as quantity
+		err = checkQuantityExponent(str)
+		if err != nil {
+			return nil, fmt.Errorf("value is not a valid quantity: %w", err)
+		}
 		q, err := resource.ParseQuantity(str)
 		if err != nil {
 			return nil, fmt.Errorf("value is not a valid quantity: %w", err)
